@@ -1,2 +1,70 @@
-(* C11 placeholder: statements are added with Proofs/MimeProofs.v *)
-From LV Require Import Base.Bytes.
+(* C11  MIME trees format to a structure an independent parser reads back identically.  Statements only.
+   `fmt` is the model of EmailFormat::format for SinglePart / MultiPart (Model/Mime.v); `parse_entity` is the
+   reader written from RFC 2045 / 2046 (Spec/MimeReader.v); `tree_of` forgets nothing but the boundary:
+   nesting, order, every part's header fields (unfolded), every leaf's body octets. *)
+From Coq Require Import Strings.String.
+From LV Require Import Base.Bytes Base.Str Base.Res Model.HeaderEnc Model.Mime Spec.Rfc5322 Spec.MimeReader
+  Proofs.HeaderProofs Proofs.MimeProofs Proofs.MimeCtProofs.
+Local Open Scope nat_scope.
+
+(* For EVERY tree - any depth, any fan-out, any header fields the constructors accept, any leaf bodies - whose
+   multiparts announce their boundary and in which no line of a contained part is a delimiter line of an
+   enclosing multipart (`wf`), the reader recovers exactly the tree from the formatted octets.
+   fmt' p is fmt p without its final CRLF (which belongs to the delimiter that follows a nested part). *)
+Theorem C11_reads_back : forall p, wf p -> forall fuel, depth p <= fuel ->
+  parse_entity fuel (fmt' p) = Some (tree_of p).
+Proof. exact reads_back. Qed.
+
+Theorem C11_formatted_adds_crlf : forall p, fmt p = fmt' p ++ CRLF.
+Proof. exact fmt_fmt'. Qed.
+
+(* the octets as transmitted: a multipart reads back as its tree (the CRLF after the closing delimiter is
+   epilogue); a top-level single part as its leaf, the body followed by that CRLF *)
+Theorem C11_formatted_multi : forall hs b ps fuel, wf (PMulti hs b ps) -> depth (PMulti hs b ps) <= fuel ->
+  parse_entity fuel (fmt (PMulti hs b ps)) = Some (tree_of (PMulti hs b ps)).
+Proof. exact reads_back_formatted_multi. Qed.
+Theorem C11_formatted_single : forall hs body fuel, wf (PSingle hs body) -> 1 <= fuel ->
+  parse_entity fuel (fmt (PSingle hs body)) = Some (TLeaf (fields_of hs) (body ++ CRLF)).
+Proof. exact reads_back_formatted_single. Qed.
+
+(* delimiter lines: the body of a multipart consists, line by line, of one dash-boundary line `--b` before
+   each part, the part's own lines, and one closing delimiter `--b--`, with the boundary b of that node *)
+Theorem C11_delimiters : forall hs b ps, no_cr b = true ->
+  exists body, fmt' (PMulti hs b ps) = render hs ++ CRLF ++ body /\
+  lines_of body = flat_map (fun q => dash b :: lines_of (fmt' q)) ps ++ [closing b].
+Proof. exact multipart_body_lines. Qed.
+
+(* and b is the boundary the multipart's Content-Type announces, for every kind and every boundary without
+   quote, backslash or CR (the value is read by the RFC 2045 parameter grammar) *)
+Theorem C11_announced : forall k b, forallb bchar_ok b = true -> ct_boundary (mp_ct k b) = Some b.
+Proof. exact ct_announces. Qed.
+
+(* formatting is a function of the built part (it is a Gallina function), and a part formatted alone is,
+   octet for octet, what appears inside its parent *)
+Theorem C11_alone_vs_inside : forall hs b ps q, In q ps ->
+  exists pre post, fmt (PMulti hs b ps) = pre ++ dash b ++ CRLF ++ fmt q ++ post.
+Proof. exact child_inside. Qed.
+
+(* what `wf` asks, spelled out (so that the hypothesis can be read here) *)
+Theorem C11_wf_multi : forall hs b ps, wf (PMulti hs b ps) <->
+  Forall field_ok hs /\ boundary_of (fields_of hs) = Some b /\ no_cr b = true /\
+  Forall (fun q => wf q /\ Forall (plain_line b) (lines_of (fmt' q))) ps.
+Proof. exact wf_multi. Qed.
+
+(* non-vacuity: a two-level tree built by the model's own builder, read back by the reader *)
+Example C11_example :
+  let d := DMulti MMixed (bs "XX") [DSingle KPlain true (bs "hello"); DMulti MAlternative (bs "YY") [DSingle KHtml true (bs "--XX- not a delimiter")]] in
+  match build d with
+  | Ok p => parse_entity 3 (fmt p) = Some (tree_of p) /\ boundary_of (fields_of match p with PMulti hs _ _ => hs | PSingle hs _ => hs end) = Some (bs "XX")
+  | _ => False
+  end.
+Proof. vm_compute. split; reflexivity. Qed.
+
+Print Assumptions C11_reads_back.
+Print Assumptions C11_formatted_adds_crlf.
+Print Assumptions C11_formatted_multi.
+Print Assumptions C11_formatted_single.
+Print Assumptions C11_delimiters.
+Print Assumptions C11_announced.
+Print Assumptions C11_alone_vs_inside.
+Print Assumptions C11_wf_multi.
